@@ -1,4 +1,5 @@
 (* Props/C11.v — property C11: Normalize reorders any contract-abiding stream losslessly into sequential order. *)
+From CV Require Proofs.ReviewP2 Proofs.NormalizeP7.
 From CV Require Import Proofs.SchedP5.
 From CV Require Import Model.Base Model.Events Model.Contract Model.Normalize Proofs.BaseP Proofs.NormalizeP Proofs.NormalizeP2
   Proofs.NormalizeP3 Proofs.NormalizeP5 Proofs.NormalizeP6.
@@ -180,3 +181,47 @@ Theorem C11_path_order_preserved :
     = filter (fun e => StatsP3.same_path f r s (snd e)) es.
 Proof. exact StatsP3.path_order_preserved. Qed.
 Print Assumptions C11_path_order_preserved.
+
+
+(* ---------- HEAD-LIVENESS IN OBSERVABLE FORM (review finding M6) ----------
+   `C11_nothing_forwardable_is_held_back` above is idempotence of the model's own flush: a normalizer that held every
+   event until its feature finished would satisfy the same sentence. Here the HEAD is computed from the input prefix `es`
+   and the output so far `out` ONLY (ReviewP2.RA): head feature = first feature, in the order of the Feature-Started
+   events of `es`, whose Finished is not in `out`; head item = first rule / top-level attempt of it, in the order of their
+   Started events, whose Finished is not in `out`; head attempt = that attempt, or the first unfinished attempt of the
+   head rule. For every contract-abiding prefix: the head feature's and head rule's Started are in the output, and the
+   events of the head attempt in the output ARE its events in the input — all of them, in order. A lazy normalizer
+   (post-processing that holds a feature until its Finished) violates it (ReviewP2.RA.lazy_variant_violates_the_statement).
+   The executable form `head_ok` is also demanded of the REAL writer's output after every call (Check/C11Check.v). *)
+Theorem C11_head_is_never_held_back :
+  forall es : list mev, contract_prefix (map snd es) = true ->
+    let out := concat (nrun es) in
+    (forall f m, ReviewP2.RA.head_feat es out = Some f -> In (m, EvFeatS f) es -> In (m, EvFeatS f) out) /\
+    (forall f r m, ReviewP2.RA.head_feat es out = Some f -> ReviewP2.RA.head_item f es out = Some (KRule r) ->
+       In (m, EvRuleS f r) es -> In (m, EvRuleS f r) out) /\
+    (forall f ro sc rt, ReviewP2.RA.head_attempt es out = Some (f, ro, sc, rt) ->
+       filter (fun e => NormalizeP7.same_att f ro sc rt (snd e)) out = filter (fun e => NormalizeP7.same_att f ro sc rt (snd e)) es).
+Proof. exact ReviewP2.C11_head_is_never_held_back. Qed.
+Print Assumptions C11_head_is_never_held_back.
+
+Theorem C11_nothing_of_the_head_is_held :
+  forall es : list mev, contract_prefix (map snd es) = true ->
+    let out := concat (nrun es) in
+    (forall f m, ReviewP2.RA.head_feat es out = Some f -> ~ In (m, EvFeatS f) (ReviewP2.RA.held es out)) /\
+    (forall f r m, ReviewP2.RA.head_feat es out = Some f -> ReviewP2.RA.head_item f es out = Some (KRule r) ->
+       ~ In (m, EvRuleS f r) (ReviewP2.RA.held es out)) /\
+    (forall f ro sc rt e, ReviewP2.RA.head_attempt es out = Some (f, ro, sc, rt) -> In e (ReviewP2.RA.held es out) ->
+       NormalizeP7.same_att f ro sc rt (snd e) = false).
+Proof. exact ReviewP2.C11_nothing_of_the_head_is_held. Qed.
+Print Assumptions C11_nothing_of_the_head_is_held.
+
+Theorem C11_head_ok_after_every_call :
+  forall (es : list mev) n, contract (map snd es) = true ->
+    ReviewP2.RA.head_ok (firstn n es) (concat (firstn n (nrun es))) = true.
+Proof. exact ReviewP2.C11_head_ok_after_every_call. Qed.
+Print Assumptions C11_head_ok_after_every_call.
+
+Example C11_head_liveness_is_discriminating :
+  ReviewP2.RA.head_ok ReviewP2.RA.exA (ReviewP2.RA.lazy_out ReviewP2.RA.exA) = false /\
+  ReviewP2.RA.head_ok ReviewP2.RA.exA (concat (nrun ReviewP2.RA.exA)) = true.
+Proof. vm_compute. split; reflexivity. Qed.
